@@ -1,7 +1,9 @@
 """Registry: property id -> machine class."""
 
+from simkit.machines.crash import CrashMachine
 from simkit.machines.edits import EditsMachine
 
 REGISTRY = {
     "C03": EditsMachine,
+    "C19": CrashMachine,
 }
